@@ -36,7 +36,7 @@ REQUIRED_MONITORS = ["increasing", "inside_limits", "inside_support", "weights_f
 REQUIRED_BUCKETS = {
     "quick": ["type:gaussian", "type:lognormal", "type:schulz", "type:boltzmann", "type:uniform",
               "type:rectangle", "cut:none", "cut:lower", "cut:upper", "cut:both", "relative", "absolute",
-              "degenerate:zero_width", "degenerate:npts<2", "layer:get_mesh", "layer:sasview", "layer:shared-name-sequence", "layer:set_dispersion-shared-object", "layer:one-setting-changed-sequence", "layer:vector-element", "layer:fewer-than-two-points-with-width",
+              "degenerate:zero_width", "degenerate:npts<2", "layer:get_mesh", "layer:sasview", "layer:shared-name-sequence", "layer:set_dispersion-shared-object", "layer:one-setting-changed-sequence", "layer:vector-element", "layer:fewer-than-two-points-with-width", "layer:set_dispersion-zero-width-after-width", "cut:symmetric",
               "partype:volume", "partype:orientation"],
 }
 REQUIRED_BUCKETS["thorough"] = REQUIRED_BUCKETS["quick"]
@@ -137,6 +137,12 @@ def judge(rec, disperser, n, width, nsigmas, value, limits, relative, result):
     if disperser in ("lognormal", "schulz"):
         ok = ok and bool(np.all(v > 0))
     chk("inside_support", ok, half_width=half, center=center)
+    if center == 0.0 and lb == -ub and disperser not in ("lognormal", "schulz"):
+        # a symmetric density on a symmetric mesh cut by symmetric limits: the kept points and their weights are
+        # symmetric about the centre (both limits are treated alike, a point on a limit included)
+        sym = len(v) > 0 and bool(np.allclose(v, -v[::-1], rtol=0, atol=1e-9*max(1.0, abs(ub) if np.isfinite(ub) else 1.0))
+                                  and np.allclose(w, w[::-1], rtol=1e-9, atol=1e-300))
+        chk("symmetric_limits_symmetric_mesh", sym)
     chk("weights_finite_nonneg", bool(np.all(np.isfinite(w)) and np.all(w >= 0)))
     chk("weights_sum_to_one", abs(float(np.sum(w)) - 1.0) <= 1e-12, total=float(np.sum(w)))
     # proportional to the documented density
@@ -240,6 +246,21 @@ def draw(rng, force=None):
         w = half*10**rng.uniform(-3, -1)
         lb, ub = center - w*rng.random(), center + w*rng.random()
         cut = "both"
+    if force.get("symmetric") and not relative and deg is None:
+        # angular jitter with symmetric limits; in half of the cases the outermost kept grid points lie exactly
+        # on the limits (binary-exact width, span and point count: e.g. width 120, 3 sigma, limits +-360)
+        n = int(2**rng.integers(1, 7)) + 1
+        pd = float(2.0**rng.integers(-2, 7))
+        ns = float(rng.choice([1.0, 2.0, 4.0]))
+        half = pd if t == "uniform" else pd*ns
+        if rng.random() < 0.5:
+            j = int(rng.integers(0, (n - 1)//2 + 1))
+            L = half - j*(2*half/(n - 1))            # exactly a grid point
+            if L == 0:
+                L = half
+        else:
+            L = half*float(rng.uniform(0.2, 1.5))
+        lb, ub, cut = -L, L, "symmetric"
     return {"type": t, "n": n, "width": pd, "nsigmas": ns, "value": c,
             "limits": [float(lb), float(ub)], "relative": relative, "cut": cut,
             "degenerate": deg}
@@ -278,10 +299,11 @@ def run_direct(case, rec):
         forced.append({"type": t})
     for cut in ("none", "lower", "upper", "both"):
         forced.append({"cut": cut})
+    forced += [{"relative": False, "symmetric": True, "type": tt} for tt in ("gaussian", "uniform", "rectangle", "boltzmann")]
     forced += [{"relative": True}, {"relative": False}, {"degenerate": "zero_width"},
                {"degenerate": "npts<2"}, {"degenerate": "zero_width", "relative": False}]
     for k in range(case["n"]):
-        d = draw(rng, forced[k] if k < len(forced) else None)
+        d = draw(rng, forced[k] if k < len(forced) else ({"relative": False, "symmetric": True} if k % 10 == 9 else None))
         _state["current"] = rec
         before = _state["contract_evals"]
         try:
@@ -510,6 +532,22 @@ def run_layer(case, rec):
                    "by %s and a second instance, the others edited afterwards" % pb.name,
                    "points": np.asarray(pts)[:8], "expected_points": exp_v[:8], "npoints": [len(pts), len(exp_v)]})
         rec.bucket("layer:set_dispersion-shared-object")
+        # a disperser of zero width handed to a parameter that had a width before: the single central value
+        m3 = Model()
+        m3.setParam(pa.name, va)
+        m3.setParam(pa.name + ".width", 0.25)
+        m3.setParam(pa.name + ".npts", 15)
+        m3.set_dispersion(pa.name, weights.GaussianDispersion(npts=15, width=0.0, nsigmas=3.0))
+        _state["current"] = rec
+        try:
+            val3, pts3, wts3 = m3._get_weights(pa)
+        finally:
+            _state["current"] = None
+        ok3 = len(pts3) == 1 and float(pts3[0]) == va and float(wts3[0]) == 1.0
+        rec.check("degenerate_single_point", ok3,
+                  {"model": name, "parameter": pa.name, "via": "SasviewModel.set_dispersion(zero-width disperser) after a "
+                   "non-zero width", "points": np.asarray(pts3)[:8], "weights": np.asarray(wts3)[:8], "value": va})
+        rec.bucket("layer:set_dispersion-zero-width-after-width")
     rec.observe(model=name, dispersible=npd)
     if npd == 0:
         rec.set_shape((name, "no dispersible parameter"), False)
